@@ -31,14 +31,14 @@ SYS_PROPS = ['C01', 'C02', 'C03', 'C06', 'C08', 'C10', 'C12', 'C15', 'C19', 'C20
 # exhaustive configurations of S: (cfg file, properties whose design-level statement it checks)
 MC_CFGS = {
     'quick': ['BertE.q.cfg', 'BertE.nq.cfg', 'BertE.sk.cfg', 'BertE.qs.cfg', 'BertE.fq.cfg', 'BertE.qh.cfg', 'BertE.r.cfg', 'BertE.adm.cfg'],
-    'thorough': ['BertE.q.t.cfg', 'BertE.nq.t.cfg', 'BertE.sk.t.cfg', 'BertE.qs.t.cfg', 'BertE.q3.t.cfg', 'BertE.qh.t.cfg', 'BertE.r.t.cfg', 'BertE.r2.cfg', 'BertE.adm.t.cfg', 'BertE.fa.cfg',
+    'thorough': ['BertE.q.t.cfg', 'BertE.nq.t.cfg', 'BertE.sk.t.cfg', 'BertE.qs.t.cfg', 'BertE.q3.t.cfg', 'BertE.qh.t.cfg', 'BertE.r.t.cfg', 'BertE.r2.cfg', 'BertE.adm.t.cfg', 'BertE.fa.cfg', 'BertE.o.cfg',
                  'BertE.f.cfg', 'BertE.fp.cfg', 'BertE.fr.cfg', 'BertE.wnq.cfg', 'BertE.wq.cfg'],
 }
 SIM_CFGS = {
     'quick': [('BertE.sim.cfg', 16, 30), ('BertE.simsk.cfg', 12, 30), ('BertE.simnq.cfg', 8, 24),
-              ('BertE.sims.cfg', 12, 30), ('BertE.simf.cfg', 12, 45), ('BertE.simh.cfg', 10, 30), ('BertE.simr.cfg', 12, 36), ('BertE.sima.cfg', 12, 36)],
+              ('BertE.sims.cfg', 12, 30), ('BertE.simf.cfg', 12, 45), ('BertE.simh.cfg', 10, 30), ('BertE.simr.cfg', 12, 36), ('BertE.sima.cfg', 12, 36), ('BertE.simo.cfg', 8, 32)],
     'thorough': [('BertE.sim.cfg', 400, 40), ('BertE.simsk.cfg', 300, 40), ('BertE.simnq.cfg', 150, 30),
-                 ('BertE.sims.cfg', 300, 40), ('BertE.simf.cfg', 300, 60), ('BertE.simsa.cfg', 200, 40), ('BertE.simh.cfg', 300, 40), ('BertE.simr.cfg', 400, 45), ('BertE.sima.cfg', 400, 45), ('BertE.simm.cfg', 200, 40), ('BertE.simam.cfg', 200, 40), ('BertE.simfa.cfg', 300, 60)],
+                 ('BertE.sims.cfg', 300, 40), ('BertE.simf.cfg', 300, 60), ('BertE.simsa.cfg', 200, 40), ('BertE.simh.cfg', 300, 40), ('BertE.simr.cfg', 400, 45), ('BertE.sima.cfg', 400, 45), ('BertE.simm.cfg', 200, 40), ('BertE.simam.cfg', 200, 40), ('BertE.simfa.cfg', 300, 60), ('BertE.simo.cfg', 300, 40)],
 }
 
 
